@@ -3,7 +3,7 @@
 From Coq Require Import NArith ZArith List Bool.
 Import ListNotations.
 Require Import UV.Gen.Consts UV.Mcount.Model UV.Mcount.Forest UV.Mcount.PlainStep UV.Mcount.PlainProofs
-  UV.Mcount.Restore UV.Mcount.SelectSpec UV.Mcount.Select UV.Mcount.Embed UV.Mcount.EmbedOver UV.Mcount.EmbedMore UV.Mcount.Check UV.Mcount.SelectSpec2 UV.Mcount.Select2 UV.Mcount.Method.
+  UV.Mcount.Restore UV.Mcount.SelectSpec UV.Mcount.Select UV.Mcount.Embed UV.Mcount.EmbedOver UV.Mcount.EmbedMore UV.Mcount.Check UV.Mcount.SelectSpec2 UV.Mcount.Select2 UV.Mcount.Method UV.Mcount.Finish UV.Mcount.FinishMI.
 Local Open Scope N_scope.
 
 (* The filter state after a function returns equals the state before it was called - for EVERY
@@ -102,20 +102,21 @@ Print Assumptions C05_embedding_checker_exact.
 (* non-vacuity: an option set with -F, -N, depth=, time=, size= and trace triggers has no switch *)
 Theorem C05_no_switch_example :
   no_switch (mkcfg [(1, {| t_filter := Some true; t_depth := Some 2; t_time := None; t_size := None;
-                           t_trace_on := false; t_trace_off := false; t_trace := false; t_caller := true |});
+                           t_trace_on := false; t_trace_off := false; t_trace := false; t_caller := true; t_loc := None; t_finish := false |});
                     (2, {| t_filter := Some false; t_depth := None; t_time := Some 50; t_size := Some 40;
-                           t_trace_on := false; t_trace_off := false; t_trace := true; t_caller := false |})]
+                           t_trace_on := false; t_trace_off := false; t_trace := true; t_caller := false; t_loc := None; t_finish := false |})]
                    true true 3 10 1024 [] PG).
 Proof. exact no_switch_example. Qed.
 Print Assumptions C05_no_switch_example.
 
-(* Documented semantics, stage 2: -F / -N / -C / -D / -t together with the trigger actions depth=N, time=T, size=Z and trace
-   (alone or combined with filter / notrace / caller on the same function), any trigger table with well-formed values, any
-   threshold, both instrumentation shapes, no further hypothesis: the recorded stream equals the tree-recursive specification [sel2]. *)
-Theorem C05_matches_documented_filters_depth_time_triggers : forall tg szf fm hc gd thr ms sh,
+(* Documented semantics, stage 2: -F / -N / -C / -D / -t / -L together with the trigger actions depth=N, time=T, size=Z and trace
+   (alone or combined with filter / notrace / caller on the same function; every function at a source location that -L
+   shows, hides or does not name: [sl], [lm]), any trigger table with well-formed values, any threshold, both
+   instrumentation shapes, no further hypothesis: the recorded stream equals the tree-recursive specification [sel2]. *)
+Theorem C05_matches_documented_filters_depth_time_triggers : forall tg szf fm hc lm gd thr ms sh,
   0 < gd -> wf_tg tg -> forall f, all_timed f -> heights f <= ms ->
-  out (fst (exec (fcfg2 tg szf fm hc gd thr ms sh) (flat_forest f) (init, []))) =
-  flat_map (sel2 tg szf hc (x02 fm gd thr) 0) f.
+  out (fst (exec (fcfg2 tg szf fm hc lm gd thr ms sh) (flat_forest f) (init, []))) =
+  flat_map (sel2 tg szf hc lm (x02 fm gd thr) 0) f.
 Proof. exact run_forest_sel2. Qed.
 Print Assumptions C05_matches_documented_filters_depth_time_triggers.
 
@@ -124,11 +125,29 @@ Theorem C05_trigger_table_example : wf_tg tg_example.
 Proof. exact tg_example_ok. Qed.
 Print Assumptions C05_trigger_table_example.
 
+(* The location filter at work (non-vacuity of the -L part of [sel2] and of the model): main{ a{ b{ c } } c } where a and
+   c lie in a file that -L hides and a is a filter function: a and both c are not shown, b (inside the filter
+   function a) is shown at depth 0 - under both instrumentation shapes. *)
+Definition loc_tg : N -> strig :=
+  assoc notrig2 [(256, {| sf := Some true; sd := None; stm := None; ssz := None; str := false; sc := false; sl := Some false |});
+                 (768, {| sf := None; sd := None; stm := None; ssz := None; str := false; sc := false; sl := Some false |})].
+Definition loc_forest : list call := [Call 0 10 100 [Call 256 12 60 [Call 512 14 40 [Call 768 16 20 []]]; Call 768 70 80 []]].
+Theorem C05_location_filter_example :
+  flat_map (sel2 loc_tg (fun _ => 0) false false (x02 true 1024 0) 0) loc_forest =
+    [{| r_time := 14; r_type := ENTRY; r_depth := 0; r_addr := 512 |};
+     {| r_time := 40; r_type := EXIT; r_depth := 0; r_addr := 512 |}] /\
+  out (fst (exec (fcfg2 loc_tg (fun _ => 0) true false false 1024 0 1024 PG) (flat_forest loc_forest) (init, []))) =
+    flat_map (sel2 loc_tg (fun _ => 0) false false (x02 true 1024 0) 0) loc_forest /\
+  out (fst (exec (fcfg2 loc_tg (fun _ => 0) true false false 1024 0 1024 CYG) (flat_forest loc_forest) (init, []))) =
+    flat_map (sel2 loc_tg (fun _ => 0) false false (x02 true 1024 0) 0) loc_forest.
+Proof. vm_compute. repeat split; reflexivity. Qed.
+Print Assumptions C05_location_filter_example.
+
 (* ... and therefore independent of the instrumentation method in the whole option class *)
-Theorem C05_method_independent_filters_triggers : forall tg szf fm hc gd thr ms f,
+Theorem C05_method_independent_filters_triggers : forall tg szf fm hc lm gd thr ms f,
   0 < gd -> wf_tg tg -> all_timed f -> heights f <= ms ->
-  out (fst (exec (fcfg2 tg szf fm hc gd thr ms PG) (flat_forest f) (init, []))) =
-  out (fst (exec (fcfg2 tg szf fm hc gd thr ms CYG) (flat_forest f) (init, []))).
+  out (fst (exec (fcfg2 tg szf fm hc lm gd thr ms PG) (flat_forest f) (init, []))) =
+  out (fst (exec (fcfg2 tg szf fm hc lm gd thr ms CYG) (flat_forest f) (init, []))).
 Proof. exact method_independent_sel2. Qed.
 Print Assumptions C05_method_independent_filters_triggers.
 
@@ -168,17 +187,64 @@ Print Assumptions C05_nested_any_configuration_any_depth.
 
 (* Inside the stage-2 option class every call, from every state the class can reach,
    leaves the filter state and the record index as it found them. *)
-Theorem C05_state_restored_stage2_class : forall tg szf fm hc gd thr ms sh,
+Theorem C05_state_restored_stage2_class : forall tg szf fm hc lm gd thr ms sh,
   0 < gd -> wf_tg tg -> forall k, timed k -> forall s hk i o dp mx tm zs x,
   fc s = fstate2 i o dp mx tm zs -> Rel2 fm gd thr i o dp mx tm zs x -> enabled s = true -> idx s + height k <= ms ->
-  exists s', exec (fcfg2 tg szf fm hc gd thr ms sh) (flat k) (s, hk) = (s', hk) /\ fc s' = fc s /\ ridx s' = ridx s.
+  exists s', exec (fcfg2 tg szf fm hc lm gd thr ms sh) (flat k) (s, hk) = (s', hk) /\ fc s' = fc s /\ ridx s' = ridx s.
 Proof. exact call_restores_state_sel2. Qed.
 Print Assumptions C05_state_restored_stage2_class.
 
 (* ... and with the global size filter -Z gz in force from the start of every thread *)
-Theorem C05_matches_documented_with_size_filter_Z : forall tg szf fm hc gd thr ms sh gz f,
+Theorem C05_matches_documented_with_size_filter_Z : forall tg szf fm hc lm gd thr ms sh gz f,
   0 < gd -> wf_tg tg -> all_timed f -> heights f <= ms ->
-  out (fst (exec (fcfg2 tg szf fm hc gd thr ms sh) (flat_forest f) (init_z gz, []))) =
-  flat_map (sel2 tg szf hc (x02z fm gd thr gz) 0) f.
+  out (fst (exec (fcfg2 tg szf fm hc lm gd thr ms sh) (flat_forest f) (init_z gz, []))) =
+  flat_map (sel2 tg szf hc lm (x02z fm gd thr gz) 0) f.
 Proof. exact run_forest_sel2_z. Qed.
 Print Assumptions C05_matches_documented_with_size_filter_Z.
+
+(* ---------------------------------------------------------------- the finish trigger (-T f@finish) *)
+(* Without a finish trigger in the table the run with the trigger modelled ([exec_f]) is the ordinary run: every theorem
+   above speaks about it. *)
+Theorem C05_finish_absent_same_run : forall c, (forall a, t_finish (trig_of c a) = false) ->
+  forall es s hk, exec_f c es (s, hk, false) = (exec c es (s, hk), false).
+Proof. exact exec_f_nofinish. Qed.
+Print Assumptions C05_finish_absent_same_run.
+
+(* finish truncates the stream: for EVERY configuration, once the trigger fires (events [p] without a firing entry, then
+   the entry of a function whose trigger is looked up and has the finish action) the state is the one the finishing
+   entry leaves, whatever the program does afterwards ([q]) ... *)
+Theorem C05_finish_truncates : forall c p a t q s hk s' hk',
+  exec_f c p (s, hk, false) = (s', hk', false) -> finish_fires c s' a = true ->
+  exec_f c (p ++ Enter a t :: q) (s, hk, false) = (finish_enter c s' a t, hk', true).
+Proof. exact finish_truncates. Qed.
+Print Assumptions C05_finish_truncates.
+
+(* ... and the finishing entry itself adds ENTRY records only (the pending ones of the open calls and its own): no EXIT,
+   nothing of a call that is not open *)
+Theorem C05_finish_writes_entries_only : forall c s0 a t,
+  exists recs, out (finish_enter c s0 a t) = out (fst (fst (fst (entry_check c s0 a)))) ++ recs /\
+               Forall (fun r => r_type r = ENTRY) recs.
+Proof. exact finish_writes_entries_only. Qed.
+Print Assumptions C05_finish_writes_entries_only.
+
+(* The code as found carried the trigger out for a rejected function under -finstrument-functions only (`-D 1 -T a@finish`
+   recorded the whole program under -pg); repaired (pg-finish-rejected), both shapes stop at the same entry. *)
+Theorem C05_finish_legacy_refuted :
+  length (out (fst (fst (fold_left (fstep0 (fin_cfg PG)) fin_events (init, [], false))))) = 2%nat /\
+  length (out (fst (fst (fold_left (fstep0 (fin_cfg CYG)) fin_events (init, [], false))))) = 1%nat /\
+  out (fst (fst (exec_f (fin_cfg PG) fin_events (init, [], false)))) =
+  out (fst (fst (exec_f (fin_cfg CYG) fin_events (init, [], false)))) /\
+  out (fst (fst (exec_f (fin_cfg PG) fin_events (init, [], false)))) =
+    [{| r_time := 100; r_type := ENTRY; r_depth := 0; r_addr := 0 |}].
+Proof. exact finish_legacy_refuted. Qed.
+Print Assumptions C05_finish_legacy_refuted.
+
+(* Method independence WITH the finish trigger: for EVERY configuration (any trigger table including finish, any -D / -t /
+   -C / -Z / -L) and every call forest that fits into --max-stack the run that stops at the first firing entry writes
+   the same records under both instrumentation shapes (the two runs are related at every instant, take the same
+   decision at every entry and flush the same pending ENTRY records: Mcount/FinishMI.v). *)
+Theorem C05_method_independent_with_finish : forall c z f, heights f <= max_stack c ->
+  out (fst (fst (exec_f (pg_of c) (flat_forest f) (init_z z, [], false)))) =
+  out (fst (fst (exec_f (cyg_of c) (flat_forest f) (init_z z, [], false)))).
+Proof. exact finish_method_independent. Qed.
+Print Assumptions C05_method_independent_with_finish.
